@@ -230,6 +230,8 @@ def analyse_tu(src, tier="quick", extra=(), keep_ir=False):
         def residual_of(calls):
             return [c for c in calls if c["kind"] == "__verif_fail"]
         resid = residual_of(pcalls)
+        trace = []
+        trace.append(("clang-O2", len(resid), round(time.time() - t0, 1)))
         # every pipeline is sound on its own; stop as soon as nothing is left
         if resid:
             for name, steps in _pipelines()[1:]:
@@ -258,6 +260,7 @@ def analyse_tu(src, tier="quick", extra=(), keep_ir=False):
                         m2 = {(c["func"], c["id"], c["ints"]): c for c in r2}
                         new = [m2[(c["func"], c["id"], c["ints"])] for c in new]
                     resid = new
+                trace.append((name, len(resid), round(time.time() - t0, 1)) + ((sorted(set(c["func"][:60] for c in resid)),) if 0 < len(resid) <= 12 and os.environ.get("VERIF_E1_TRACE") else ()))
                 if not resid:
                     break
         if resid:
@@ -270,9 +273,11 @@ def analyse_tu(src, tier="quick", extra=(), keep_ir=False):
                 c2, md2 = parse_ir(t2)
                 keys2 = set((c["func"], c["id"], c["ints"]) for c in residual_of(c2))
                 resid = [c for c in resid if (c["func"], c["id"], c["ints"]) in keys2]
+                trace.append((vname, len(resid), round(time.time() - t0, 1)))
                 if not resid:
                     break
         res["pipelines_used"] = used
+        res["residual_after_each_pipeline"] = trace
         names = set(c["func"] for c in dcalls) | set(c["func"] for c in pcalls if c["func"])
         dm = demangle(n for n in names if n)
         for c in dcalls:
